@@ -305,6 +305,10 @@ func (t *textGen) randNode() *node.Node {
 
 func (t *textGen) randPred() *predicate.Predicate {
 	id := t.randID(false)
+	if t.r.chance(1, 8) {
+		// IDs with white space in them — %q leaves a space as it is — and with what ends a predicate in a triple's text
+		id = []string{"x] /y", "p q", "a ] \"b", "] /", "knows well", "a]  /b] \"c", "tab\there"}[t.r.intn(7)]
+	}
 	if t.r.chance(1, 2) {
 		p, _ := predicate.NewImmutable(id)
 		return p
